@@ -29,7 +29,7 @@ IterOps   == {"extend", "collect", "display", "from_utf8_lossy", "from_utf16", "
 SizedOps  == {"with_capacity", "reserve", "shrink_to", "extend", "collect"}
 CloneOps  == {"clone", "clone_from"}
 TextCtors == {"from_str", "from_char"}
-Ctors     == {"new", "from_str", "from_static", "with_capacity", "from_char", "clone", "collect", "display",
+Ctors     == {"new", "from_str", "from_static", "with_capacity", "from_char", "clone", "clone_ovf", "collect", "display",
               "from_utf8_lossy", "from_utf16", "from_utf16_lossy"}
 EditOps   == {"push_str", "insert_str", "pop", "remove", "retain", "truncate", "clear"}
 AppendOps == {"push_str", "insert_str"}
